@@ -29,7 +29,8 @@ import vfutil
 from pyramid.config import Configurator
 from pyramid.events import NewRequest, BeforeTraversal, ContextFound, NewResponse, ApplicationCreated
 from pyramid.httpexceptions import HTTPBadRequest, HTTPException
-from pyramid.request import Request
+from pyramid.request import Request, RequestLocalCache
+import weakref
 from pyramid.response import Response
 from pyramid.threadlocal import manager, get_current_request, get_current_registry
 from pyramid.tweens import EXCVIEW
@@ -118,23 +119,35 @@ class ReqState:
         self.own, self.kids = [], []
         self.out, self.depth_after = None, None
         self.xv = False    # the application serving this request has the custom exception view
+        self.request = None
         self.sk = []       # [kind, site id, depth, raised] of the events the skeleton comparison looks at
 
     def rel(self):
         return len(manager.stack)
 
+    def register_for(self, request, stage):
+        """the registrations scheduled for `stage` (a hook point, or "cb:<id>" = while callback <id> runs)"""
+        for i, reg in enumerate(self.spec.get('regs', [])):
+            if reg[0] != stage:
+                continue
+            kind = reg[1]
+            self.own.append(['reg', kind, i])
+            if kind == 'resp':
+                request.add_response_callback(self.make_resp_cb(i))
+            elif len(reg) > 3 and reg[3] == 'cache' and request not in CACHE._store:
+                # through pyramid's RequestLocalCache: the first set() of a request registers the cache's own
+                # clean-up (`self._store.pop`) as a finished callback; LoggingStore.pop reports when it runs
+                CACHE.set(request, i)
+            else:
+                request.add_finished_callback(self.make_fin_cb(i))
+
     def hook(self, request, point):
         """returns True when the hook must answer `no` (soft), raises when the schedule says so"""
+        self.request = request
         self.own.append(['hook', point, cur_ok(request), self.rel()])
         if point in ('newResponse', 'excView'):
             self.sk.append(['new' if point == 'newResponse' else 'excView', site_here(), self.rel(), fault_of(self.spec, point) is not None])
-        for i, (stage, kind, _f) in enumerate(self.spec.get('regs', [])):
-            if stage == point:
-                self.own.append(['reg', kind, i])
-                if kind == 'resp':
-                    request.add_response_callback(self.make_resp_cb(i))
-                else:
-                    request.add_finished_callback(self.make_fin_cb(i))
+        self.register_for(request, point)
         k = fault_of(self.spec, point)
         if k == 'soft':
             return True
@@ -142,22 +155,23 @@ class ReqState:
             throw(k)
         return False
 
+    def ran(self, request, kind, i):
+        """callback i runs: log, register what it registers, then fail as scheduled"""
+        self.own.append(['cb', kind, i, cur_ok(request), self.rel()])
+        f = self.spec['regs'][i][2]
+        self.sk.append([kind, site_here(), self.rel(), f is not None])
+        self.register_for(request, 'cb:%d' % i)
+        if f is not None:
+            throw(eff_kind('cb', f))
+
     def make_resp_cb(self, i):
         def cb(request, response):
-            self.own.append(['cb', 'resp', i, cur_ok(request), self.rel()])
-            f = self.spec['regs'][i][2]
-            self.sk.append(['resp', site_here(), self.rel(), f is not None])
-            if f is not None:
-                throw(eff_kind('cb', f))
+            self.ran(request, 'resp', i)
         return cb
 
     def make_fin_cb(self, i):
         def cb(request):
-            self.own.append(['cb', 'fin', i, cur_ok(request), self.rel()])
-            f = self.spec['regs'][i][2]
-            self.sk.append(['fin', site_here(), self.rel(), f is not None])
-            if f is not None:
-                throw(eff_kind('cb', f))
+            self.ran(request, 'fin', i)
         return cb
 
     def chain(self, ok):
@@ -167,12 +181,33 @@ class ReqState:
     def sk_tree(self):
         return {'sk': self.sk, 'kids': [k.sk_tree() for k in self.kids]}
 
+    def left(self):
+        """what is still in the request's deques"""
+        r = self.request
+        if r is None:
+            return [0, 0]
+        return [len(r.response_callbacks), len(r.finished_callbacks)]
+
     def tree(self):
-        return {'own': self.own, 'out': self.out, 'depth': self.depth_after, 'kids': [k.tree() for k in self.kids]}
+        return {'left': self.left(), 'own': self.own, 'out': self.out, 'depth': self.depth_after, 'kids': [k.tree() for k in self.kids]}
 
 
 def st_of(request):
     return request.environ['c13']
+
+
+class LoggingStore(weakref.WeakKeyDictionary):
+    """the store of the RequestLocalCache below: `pop` is what the cache registers as its finished callback"""
+
+    def pop(self, request, *default):
+        i = weakref.WeakKeyDictionary.pop(self, request, *default)
+        if isinstance(i, int):
+            st_of(request).ran(request, 'fin', i)
+        return i
+
+
+CACHE = RequestLocalCache()
+CACHE._store = LoggingStore()
 
 
 def classify_exc(e):
@@ -187,6 +222,7 @@ def classify_exc(e):
 
 def probe_tween_factory(handler, registry):
     def probe(request):
+        st_of(request).request = request
         try:
             r = handler(request)
         except BaseException:
@@ -416,6 +452,7 @@ def make_app(xv):
     inner = app.orig_handle_request
 
     def probed(request):
+        st_of(request).request = request
         try:
             r = inner(request)
         except BaseException:
@@ -479,16 +516,19 @@ def check_node(spec, node, depth_before, where='top'):
     for e in own:
         if (e[0] == 'hook' and e[1] in ('viewBody', 'excView') and not e[2]) or (e[0] == 'resume' and not e[1]):
             bad.append('%s: current request is not the request being served at %s' % (where, e[:2]))
-    # finished callbacks: each registered one exactly once, in registration order, after everything else
+    # finished callbacks: each registered one (by a hook, by a response callback, or by a finished callback while the
+    # deque is drained) exactly once, in registration order, after everything else; nothing left in the deque
     fins = [e[2] for e in own if e[0] == 'cb' and e[1] == 'fin']
     regs_fin = [e[2] for e in own if e[0] == 'reg' and e[1] == 'fin']
     first_fin = next((i for i, e in enumerate(own) if e[0] == 'cb' and e[1] == 'fin'), len(own))
-    if any(not (e[0] == 'cb' and e[1] == 'fin') for e in own[first_fin:]):
-        bad.append('%s: something runs after a finished callback' % where)
+    if any(not ((e[0] == 'cb' and e[1] == 'fin') or e[0] == 'reg') for e in own[first_fin:]):
+        bad.append('%s: something other than finished callbacks (and what they register) runs after a finished callback' % where)
     if any(reg_fault(spec, i) for i in fins):
         pass        # a failing finished callback is outside the statement's fault list: nothing is demanded of the rest
     elif fins != regs_fin:
         bad.append('%s: finished callbacks ran %s, registered %s' % (where, fins, regs_fin))
+    elif node.get('left', [0, 0])[1] != 0:
+        bad.append('%s: %d finished callback(s) left in the deque' % (where, node['left'][1]))
     # response callbacks, then NewResponse, exactly when a response came out of the tween chain
     marks = [i for i, e in enumerate(own) if e[0] == 'chain']
     if len(marks) != 1:
@@ -504,7 +544,12 @@ def check_node(spec, node, depth_before, where='top'):
             if got:
                 bad.append('%s: response callbacks / NewResponse although no response came out of the tween chain' % where)
         else:
-            regs_resp = [e[2] for e in pre if e[0] == 'reg' and e[1] == 'resp']
+            # the phase ends with NewResponse, with a failing response callback, or with the first finished callback;
+            # response callbacks registered before that (also by response callbacks of this pass) are owed a run
+            end = next((i for i, e in enumerate(post)
+                        if (e[0] == 'hook' and e[1] == 'newResponse') or (e[0] == 'cb' and e[1] == 'fin')
+                        or (e[0] == 'cb' and e[1] == 'resp' and reg_fault(spec, e[2]))), len(post))
+            regs_resp = [e[2] for e in pre + post[:end] if e[0] == 'reg' and e[1] == 'resp']
             exp = []
             for i in regs_resp:
                 exp.append(('cb', i))
@@ -537,8 +582,15 @@ def pipeline_wf(case):
         for f in r.get('faults', []):
             if not (isinstance(f, list) and len(f) == 2 and f[0] in POINTS and f[1] in KINDS):
                 return False
-        for g in r.get('regs', []):
-            if not (isinstance(g, list) and len(g) == 3 and g[0] in POINTS and g[1] in ('resp', 'fin') and (g[2] is None or g[2] in KINDS)):
+        for gi, g in enumerate(r.get('regs', [])):
+            if not (isinstance(g, list) and len(g) in (3, 4) and isinstance(g[0], str) and g[1] in ('resp', 'fin')
+                    and (g[2] is None or g[2] in KINDS)):
+                return False
+            if g[0] not in POINTS:
+                # registered by callback <parent> while it runs; parents come first (no cycles)
+                if not (g[0].startswith('cb:') and g[0][3:].isdigit() and int(g[0][3:]) < gi):
+                    return False
+            if len(g) == 4 and not (g[3] == 'cache' and g[1] == 'fin' and g[2] is None):
                 return False
         if r.get('xx') is not None and r.get('xx') not in KINDS:
             return False
@@ -557,7 +609,8 @@ def pipeline_wf(case):
 
 def norm_req(r, top=True):
     return {'tw': True if top else bool(r.get('tw')), 'route': bool(r.get('route')),
-            'faults': [list(f) for f in r.get('faults', [])], 'regs': [list(g) for g in r.get('regs', [])],
+            'faults': [list(f) for f in r.get('faults', [])],
+            'regs': [[(['cb', int(g[0][3:])] if g[0].startswith('cb:') else g[0]), g[1], g[2]] for g in r.get('regs', [])],
             'xx': r.get('xx'), 'xo': r.get('xo'), 'subs': [norm_req(s, False) for s in r.get('subs', [])]}
 
 
@@ -578,6 +631,18 @@ def gen_req(rng, depth, top=False):
     for _ in range(rng.choice([0, 1, 2, 2, 3, 4, 5])):
         regs.append([rng.choice(POINTS), rng.choice(['resp', 'fin', 'fin']),
                      None if rng.random() < 0.8 else rng.choice(['plain', 'http'])])
+    # callbacks that register callbacks while they run (two levels), also through RequestLocalCache
+    for _level in (1, 2):
+        for pi in range(len(regs)):
+            if rng.random() < 0.15 and len(regs) < 9:
+                reg = ['cb:%d' % pi, rng.choice(['resp', 'fin', 'fin']), None if rng.random() < 0.85 else rng.choice(['plain', 'http'])]
+                if reg[1] == 'fin' and reg[2] is None and rng.random() < 0.3:
+                    reg.append('cache')
+                regs.append(reg)
+    if regs and rng.random() < 0.1:
+        j = rng.randrange(len(regs))
+        if regs[j][1] == 'fin' and regs[j][2] is None and len(regs[j]) == 3:
+            regs[j].append('cache')
     r['regs'] = regs
     r['xx'] = None if rng.random() < 0.75 else rng.choice(['plain', 'http'])
     r['xo'] = None if rng.random() < 0.8 else [rng.choice(['plain', 'http']), rng.choice([None, None, 'plain', 'http']), rng.random() < 0.3]
@@ -1093,6 +1158,12 @@ def single_fault_cases():
                                 'req': {'tw': True, 'route': False, 'faults': [], 'regs': [], 'xx': None, 'xo': None,
                                         'subs': [{'tw': True, 'route': False, 'faults': [], 'regs': [], 'xx': None,
                                                   'xo': [kind, fault, other_reg], 'subs': []}]}})
+            nested = [['viewBody', 'fin', None], ['cb:0', 'fin', None], ['cb:1', 'fin', None, 'cache'], ['viewBody', 'resp', None],
+                      ['cb:3', 'resp', None], ['cb:3', 'fin', None], ['cb:0', 'resp', None], ['newResponse', 'fin', None, 'cache']]
+            for inj in ([], [['renderer', kind]], [['newResponse', kind]]):
+                out.append({'kind': 'pipeline', 'xv': xv, 'base': 0,
+                            'req': {'tw': True, 'route': False, 'faults': inj, 'regs': [list(g) for g in nested], 'xx': None, 'xo': None,
+                                    'subs': [{'tw': False, 'route': False, 'faults': inj, 'regs': [list(g) for g in nested], 'xx': None, 'xo': None, 'subs': []}]}})
             for f in ([], [['excView', 'plain']], [['renderer', 'plain']]):
                 out.append({'kind': 'pipeline', 'xv': xv, 'base': 0,
                             'req': {'tw': True, 'route': True, 'faults': f, 'regs': [list(r) for r in STD_REGS], 'xx': kind, 'subs': []}})
@@ -1368,6 +1439,7 @@ def account(cases, obs, dist, seen, nontriv):
                             dist['failing_callbacks_run'] += 1
                     elif e[0] == 'reg':
                         st = spec['regs'][e[2]][0]
+                        st = 'cb' if st.startswith('cb:') else st
                         vfutil.bump(dist['registration_stages'], '%s:%s' % (st, e[1]))
         if key not in seen:
             seen.add(key)
